@@ -840,8 +840,11 @@ func TestVerif_C32_Random(t *testing.T) {
 	vk := vkBegin(t, "C32")
 	vk.Rule("random op of the reference table, random version that has it, boundary-biased random operands (64-bit: uniform, 2^k±1, near max, random widths; bytes: lengths 0..70 biased to 0/8/9/32/64/65/66, zeros, all-ff, leading zeros, single bit, up to 4096 for non-math ops; correlated pairs equal / off-by-one / re-padded; indices near the operand length; exp/expw bases at the integer k-th roots of 2^64 / 2^128; sqrt arguments at r^2±1), random operand-loading style and sentinel; non-trivial as in the boundary unit; distinct by (op, version, operands)")
 	rapid.Check(t, func(t *rapid.T) {
-		op := &c32Ops[rapid.IntRange(0, len(c32Ops)-1).Draw(t, "op")]
-		v := rapid.SampledFrom(c32Versions(op)).Draw(t, "version")
+		// rapid's integer generators favour small values; mix the bits so that ops and versions are drawn about equally often
+		pick := rapid.Uint64().Draw(t, "opversion") * 0x9E3779B97F4A7C15
+		op := &c32Ops[(pick>>40)%uint64(len(c32Ops))]
+		vs := c32Versions(op)
+		v := vs[(pick>>20&0xfffff)%uint64(len(vs))]
 		args := c32DrawArgs(t, op)
 		style := rapid.IntRange(0, 2).Draw(t, "style")
 		sentinel := rapid.IntRange(0, 2).Draw(t, "sentinel")
